@@ -314,6 +314,18 @@ fn operands_n(l: Layout, g: u32, tier: Tier, nmax: u128) -> Vec<u128> {
             }
         }
     }
+    // 1 +- 2^-k for every k: bases whose powers grow (or decay) at every rate between "not at all" and "doubling"
+    if l.frac < 128 && l.frac + 1 < top + 1 {
+        // (every k for the unary operand sets, every second k for the thinner base sets of pow / powi)
+        for k in (1..=l.frac).step_by(if g <= 1 { 2 } else { 1 }) {
+            let e = 1u128 << (l.frac - k);
+            push_unique(&mut v, &mut seen, one + e, m);
+            push_unique(&mut v, &mut seen, one - e, m);
+            if l.signed {
+                push_unique(&mut v, &mut seen, (one + e).wrapping_neg(), m);
+            }
+        }
+    }
     for j in 0..=4u128 {
         push_unique(&mut v, &mut seen, one + j, m);
         push_unique(&mut v, &mut seen, one - j, m);
@@ -520,7 +532,7 @@ impl Acc {
     }
     fn viol(&mut self, key: String, diff: &str, case: String, observed: String, expected: String, note: String) {
         // known-finding class by cause: pow with an amplified exponent error
-        let kf = if diff == "accuracy" && case.starts_with("trans pow ") {
+        let kf = if (diff == "accuracy" || diff == "missing-err") && case.starts_with("trans pow ") {
             let p: Vec<&str> = case.split_whitespace().collect();
             let (s, d) = (Layout::parse(p[2]).unwrap(), Layout::parse(p[3]).unwrap());
             let explained = match observed.strip_prefix("Ok(0x").and_then(|h| h.strip_suffix(')')).and_then(|h| u128::from_str_radix(h, 16).ok()) {
@@ -603,13 +615,18 @@ fn judge(acc: &mut Acc, prop: Prop, fi: usize, s: Layout, d: Layout, case: impl 
                         *acc.rep.extra.entry("powi_calls_cut_by_budget".into()).or_default() += 1;
                     }
                 }
-                _ => {
-                    if let Verdict::MustErr(why) = verdict() {
+                _ => match verdict() {
+                    Verdict::MustErr(why) => {
                         if out != TOut::Err {
                             acc.viol(pk, "missing-err", case(), out.to_string(), "Err".into(), why);
                         }
                     }
-                }
+                    // "results that do not fit yield Err": the reference says the true value is beyond the type
+                    Verdict::Bad { expected, note, .. } if expected.starts_with("Err") && out != TOut::Err => {
+                        acc.viol(pk, "missing-err", case(), out.to_string(), expected, note);
+                    }
+                    _ => {}
+                },
             }
         }
         _ => {
